@@ -43,6 +43,8 @@ pub enum TOp {
     },
     LocalFlush,
     Collect,
+    /// get_sample_sum() of the shared histogram
+    GetSum,
 }
 #[derive(Serialize, Deserialize, Clone, Debug)]
 pub struct TimerPlan {
@@ -102,12 +104,25 @@ fn gen_plan(seed: u64) -> TimerPlan {
                 }
                 78..=87 => TOp::Closure { q: r.below(500) as u32, local: r.chance(35), nested: if r.chance(30) { 1 + r.below(3) as u8 } else { 0 } },
                 88..=92 => TOp::LocalFlush,
+                93..=95 => TOp::GetSum,
                 _ => TOp::Collect,
             };
             ops.push(op);
             nops += 1;
         }
         threads.push(ops);
+    }
+    if nthreads >= 2 && r.chance(15) {
+        // one thread only reads the sum while another one collects after recording something
+        let last = nthreads - 1;
+        let n = 2 + r.below(3) as usize;
+        threads[last] = (0..n).map(|_| TOp::GetSum).collect();
+        next_id += 1;
+        let mut head = vec![TOp::Start { id: next_id - 1, local: false }, TOp::Advance(1 + r.below(100) as u32), TOp::Stop { id: next_id - 1, how: How::ObserveDuration }];
+        head.extend((0..1 + r.below(3)).map(|_| TOp::Collect));
+        head.extend(threads[0].drain(..));
+        threads[0] = head;
+        nops += 6;
     }
     let faults = r.chance(50);
     let mut env = Env::swarm(&mut r, nthreads, nops as u64 * 8 + 20, faults);
@@ -133,6 +148,7 @@ enum TRes {
     NotHeld,
     Token(u64),
     Snap(PHist),
+    Sum(f64),
     /// timers dropped (in this order) at thread end
     Dropped(Vec<u32>),
 }
@@ -261,6 +277,7 @@ fn execute(plan: &TimerPlan, mode: Mode) -> RunOut {
                         local.flush();
                         TRes::None
                     }
+                    TOp::GetSum => TRes::Sum(h.get_sample_sum()),
                     TOp::Collect => TRes::Snap(compat::family_of(&h.collect()[0]).metrics[0].hist.clone().unwrap()),
                 }));
                 ctx.ret(id);
@@ -348,6 +365,9 @@ fn execute(plan: &TimerPlan, mode: Mode) -> RunOut {
         }
     }
     let mut expected: Vec<f64> = vec![];
+    // durations recorded by an operation through the SHARED histogram at the moment the operation
+    // returns (shared timers and closures; local ones arrive later, with a flush)
+    let mut rec_shared: Vec<(u32, f64)> = vec![];
     let mut stopped: BTreeMap<u32, u32> = BTreeMap::new();
     let mut n_discard = 0u64;
     let mut n_moved = 0u64;
@@ -389,6 +409,9 @@ fn execute(plan: &TimerPlan, mode: Mode) -> RunOut {
                     n_discard += 1;
                 } else {
                     expected.push(d);
+                    if is_local.get(tid) == Some(&false) {
+                        rec_shared.push((*id, d));
+                    }
                 }
                 if let Some(v) = ret {
                     if *v != d {
@@ -407,6 +430,9 @@ fn execute(plan: &TimerPlan, mode: Mode) -> RunOut {
                 let nested = if let TOp::Closure { nested, .. } = op { *nested } else { 0 };
                 if nested == 0 {
                     expected.push(if rd.len() == 2 { secs(rd[0], rd[1]) } else { f64::NAN });
+                    if let (TOp::Closure { local: false, .. }, 2) = (op, rd.len()) {
+                        rec_shared.push((*id, secs(rd[0], rd[1])));
+                    }
                 } else {
                     // clock reads: outer start, inner start, inner stop, outer stop
                     let ok = rd.len() == 4;
@@ -462,6 +488,20 @@ fn execute(plan: &TimerPlan, mode: Mode) -> RunOut {
     for (tid, n) in &stopped {
         if *n > 1 {
             out.violations.push(Violation::new("C18/harness", "C18/harness", format!("timer {} ended {} times in the harness' bookkeeping", tid, n)));
+        }
+    }
+    // get_sample_sum(): every duration recorded through the shared histogram by an operation that had
+    // returned before the read began is in it (durations are multiples of 2^-9 s: sums are exact)
+    {
+        let ivs = intervals(&res.log);
+        for (id, r) in results.iter() {
+            if let Ok(TRes::Sum(got)) = r {
+                let inv = ivs[id].0;
+                let lower: f64 = rec_shared.iter().filter(|(oid, _)| ivs.get(oid).map(|x| x.1 < inv).unwrap_or(false)).map(|x| x.1).sum();
+                if *got < lower || *got < 0.0 || got.is_nan() {
+                    out.violations.push(Violation::new("C18/sum", "C18/get-sum", format!("get_sample_sum op {} = {} s although timers / closures that had ended before it began recorded {} s in total", id, got, lower)));
+                }
+            }
         }
     }
     // intermediate collections never show more than what could have been recorded by then
